@@ -8,7 +8,7 @@ Import ListNotations.
 Section Wk.
 Variable opts : options.
 Variable W : world.
-Notation R := (R W).
+Notation R := (R opts W).
 Notation WF := (WF W).
 Notation flof := (flof opts).
 
@@ -188,7 +188,7 @@ Proof.
         | intros Hw1 He1 Hg1 Hf1; apply (IH _ g f); try side | reflexivity | reflexivity | reflexivity | reflexivity].
     + cbv zeta.
       match goal with |- context [load_items opts ?Y items] => eapply R_then_eq with (st1 := Y) (S1 := [tn]) end;
-        [exact Hw0 | apply (R_slack W _ _ _ _ _ _ _ [] _ tn); apply (R_bindLocal_blk W _ tn to); [exact Hw0|side]
+        [exact Hw0 | apply (R_slack opts W _ _ _ _ _ _ _ [] _ tn); apply (R_bindLocal_blk opts W _ tn to); [exact Hw0|side]
         | intros Hw1 He1 Hg1 Hf1; apply (IH _ g f); try side | reflexivity | reflexivity | reflexivity | reflexivity].
 Qed.
 
@@ -198,7 +198,7 @@ Definition PSs (ss : stmts) : Prop := forall st g f, WF st -> top st = false -> 
   R st (stmts_ opts W st ss) (bound_stmts ss) (uses_stmts ss) g f [] (fn_loads_stmts ss).
 
 Ltac post_neu :=
-  match goal with |- ProofsScopeDefs2.R _ _ (_ ?Y _) _ _ _ _ _ _ => apply R_post with (st1 := Y); [|neu] end.
+  match goal with |- ProofsScopeDefs2.R _ _ _ (_ ?Y _) _ _ _ _ _ _ => apply R_post with (st1 := Y); [|neu] end.
 
 Theorem walk_scope_stmts_blk : (forall s, PS s) /\ (forall ss, PSs ss).
 Proof.
